@@ -152,6 +152,16 @@ func init() {
 		if cap < 0 {
 			panic("resolver variadic cap not found")
 		}
+		// where and how the resolver assigns native-function indexes: the statements of Resolve that build funcInfo / nativeNames,
+		// in source order together with the first pass over the program (which records the AWK-defined functions)
+		var ridx []string
+		for _, st := range findFunc(r, "", "Resolve").Body.List {
+			t := strings.Join(strings.Fields(c17StripComments(src(st))), " ")
+			if strings.Contains(t, "nativeNames") || strings.HasPrefix(t, "funcInfo :=") || strings.HasPrefix(t, "ast.Walk(&callGraph") {
+				ridx = append(ridx, t)
+			}
+		}
+		s += "def resolverIndexStmts : List String := " + leanStrList(ridx) + "\n"
 		s += "def resolverNativeBranch : String := " + leanStr(nativeIf) + "\n"
 		s += fmt.Sprintf("def resolverVariadicCap : Nat := %d\n\n", cap)
 
